@@ -105,6 +105,11 @@ Definition frag_steps (ext : bool) (f : Z) (inc : bool) (sts : list sstep) : boo
   forallb (frag_step ext f) sts &&
   (if inc then ext && negb (isnil sts)                                   (* incremental: extensions on, any number (>= 1) of steps *)
    else match sts with [st] => negb (first_ext st) | _ => false end).    (* otherwise exactly one step *)
+(* the fragment INCLUDING the probe shape, and what the reader then takes for the incremental flag *)
+Definition frag_steps_probe (ext : bool) (f : Z) (inc : bool) (sts : list sstep) : bool :=
+  forallb (frag_step ext f) sts && (if inc then ext && negb (isnil sts) else match sts with [_] => true | _ => false end).
+Definition probe (inc : bool) (sts : list sstep) : bool :=
+  negb inc && match sts with st :: _ => first_ext st | [] => false end.
 Definition in_fragment (ext : bool) (f : Z) (p : list call) : bool :=
   match parse p with Some (inc, sts) => frag_steps ext f inc sts | None => false end.
 
@@ -135,6 +140,24 @@ Definition norm_step (f : Z) (st : sstep) : list call :=
   (if uses_false f st then [CRule Head_t_Disjunctive [] [f]] else []) ++ [CEnd].
 Definition sm_norm (f : Z) (p : list call) : list call :=
   match parse p with Some (inc, sts) => CInit inc :: flat_map (norm_step f) sts | None => p end.
+
+(* the same normal form as ONE pass over the raw call sequence (no parser): state = (false atom used in this step, number of minimize
+   statements seen in this step, literals of the step's compute statement) *)
+Record nstate := mkn { n_fh : bool; n_prio : Z; n_assume : list Z }.
+Fixpoint norm_fold (f : Z) (st : nstate) (p : list call) : list call :=
+  match p with
+  | [] => []
+  | c :: r =>
+      match c with
+      | CBegin => CBegin :: norm_fold f (mkn false 0 []) r
+      | CAssume l => norm_fold f (mkn (n_fh st) (n_prio st) l) r
+      | CEnd => norm_assume (n_assume st) ++ (if n_fh st && negb (f =? 0) then [CRule Head_t_Disjunctive [] [f]] else []) ++
+                CEnd :: norm_fold f st r
+      | _ => fst (norm_rule f (n_prio st) c) ++
+             norm_fold f (mkn (n_fh st || empty_head c) (snd (norm_rule f (n_prio st) c)) (n_assume st)) r
+      end
+  end.
+Definition sm_norm_fold (f : Z) (p : list call) : list call := norm_fold f (mkn false 0 []) p.
 
 (* the writer as a partial function *)
 Definition sm_write (ext : bool) (f : Z) (p : list call) : option (list Z) :=
